@@ -14,6 +14,7 @@ statement needs are explicit hypotheses, discharged for ℝ at the end.
 import KawinV.Gen.C16Elastic
 import KawinV.Model.Elastic
 import Mathlib.Tactic.Ring
+import Mathlib.Algebra.BigOperators.Fin
 import Mathlib.Tactic.Linarith
 import Mathlib.Tactic.FieldSimp
 import Mathlib.Tactic.NormNum
@@ -1191,6 +1192,244 @@ theorem bohm_size_scaling_beta (hsq : ∀ s x : α, 0 ≤ s → Trans.sqrt (s * 
 
 end beta
 
+/-! ## axis convention: `_beta` pairs the semi-axes with the same coordinate axes as `_n`
+(round 4b, seed C16-8: sin φ attached to a and cos φ to b mirrors the particle x ↔ y relative to the stiffness and
+the eigenstrain; invisible whenever r[0] = r[1], which is every test and example of kawin) -/
+section orientation
+variable {α : Type} [Field α] [LinearOrder α] [IsStrictOrderedRing α] [Trans α]
+
+theorem quadForm_nonneg (r n : V3 α) : 0 ≤ quadForm r n := by
+  simp only [quadForm, npow]
+  have h0 := mul_self_nonneg (r 0 * n 0)
+  have h1 := mul_self_nonneg (r 1 * n 1)
+  have h2 := mul_self_nonneg (r 2 * n 2)
+  linarith
+
+/-- the radicand of `_beta` as coded (as a function of the sines and cosines) is Σ (rᵢ nᵢ)² with n = `_n`:
+a goes with n_x (cos φ), b with n_y (sin φ), c with n_z -/
+theorem betaSqSC_eq_quadForm (a b c sφ cφ sθ cθ : α) :
+    betaSqSC a b c sφ cφ sθ cθ = quadForm (vec3 a b c) (nSC sφ cφ sθ cθ) := by
+  simp [betaSqSC, quadForm, vec3, nSC, npow]
+  ring
+
+/-- the traced `_n` is `nSC` at the sines and cosines of the angles -/
+theorem nvec_eq_nSC (φ θ : α) :
+    vec3 (nvec_0 φ θ) (nvec_1 φ θ) (nvec_2 φ θ) = nSC (Trans.sin φ) (Trans.cos φ) (Trans.sin θ) (Trans.cos θ) := by
+  funext i
+  simp only [vec3, nSC, nvec_0, nvec_1, nvec_2]
+
+/-- the traced `_beta` is the square root of the radicand `betaSqSC` -/
+theorem beta_eq_sqrt_betaSqSC (a b c φ θ : α) :
+    beta a b c φ θ = Trans.sqrt (betaSqSC a b c (Trans.sin φ) (Trans.cos φ) (Trans.sin θ) (Trans.cos θ)) := by
+  simp only [beta, betaSqSC]
+
+/-- the traced `_beta` is sqrt(Σ (rᵢ nᵢ)²) with n the traced `_n` -/
+theorem beta_eq_sqrt_quadForm (a b c φ θ : α) :
+    beta a b c φ θ = Trans.sqrt (quadForm (vec3 a b c) (vec3 (nvec_0 φ θ) (nvec_1 φ θ) (nvec_2 φ θ))) := by
+  rw [beta_eq_sqrt_betaSqSC, betaSqSC_eq_quadForm, nvec_eq_nSC]
+
+/-- β² = Σᵢ (rᵢ nᵢ)² with the SAME index pairing as `_n` (sqrt law as a hypothesis, discharged over ℝ below) -/
+theorem beta_sq_eq_quadratic_form (hsq : ∀ x : α, 0 ≤ x → Trans.sqrt x * Trans.sqrt x = x) (a b c φ θ : α) :
+    beta a b c φ θ * beta a b c φ θ =
+      quadForm (vec3 a b c) (vec3 (nvec_0 φ θ) (nvec_1 φ θ) (nvec_2 φ θ)) := by
+  rw [beta_eq_sqrt_quadForm, hsq _ (quadForm_nonneg _ _)]
+
+theorem quadForm_eq_sum (r n : V3 α) : quadForm r n = ∑ i : Fin 3, (r i * n i) ^ 2 := by
+  simp only [quadForm, npow, Fin.sum_univ_three]
+  ring
+
+/-- relabelling the coordinate axes of the semi-axes and of the direction TOGETHER leaves Σ (rᵢ nᵢ)² unchanged
+(every permutation of the three axes) -/
+theorem quadForm_joint_permutation (σ : Equiv.Perm (Fin 3)) (r n : V3 α) :
+    quadForm (permV3 σ r) (permV3 σ n) = quadForm r n := by
+  rw [quadForm_eq_sum, quadForm_eq_sum]
+  exact Equiv.sum_comp σ (fun i => (r i * n i) ^ 2)
+
+theorem betaN_eq_sqrt_quadForm (r n : V3 α) : betaN r n = Trans.sqrt (quadForm r n) := rfl
+
+theorem betaN_joint_permutation (σ : Equiv.Perm (Fin 3)) (r n : V3 α) :
+    betaN (permV3 σ r) (permV3 σ n) = betaN r n := by
+  rw [betaN_eq_sqrt_quadForm, betaN_eq_sqrt_quadForm, quadForm_joint_permutation]
+
+/-- the exchange x ↔ y written out (the relabelling the driver evaluates as `perm6 2`) -/
+theorem quadForm_swap01 (r n : V3 α) : quadForm (permV3 swap01 r) (permV3 swap01 n) = quadForm r n := by
+  simp [quadForm, permV3, swap01, npow]
+  ring
+
+theorem quadForm_perm6 (k : Nat) (r n : V3 α) :
+    quadForm (permV3 (perm6 k) r) (permV3 (perm6 k) n) = quadForm r n := by
+  rcases k with _ | _ | _ | _ | _ | k <;> simp [perm6, swap01, quadForm, permV3, npow] <;> ring
+
+theorem betaN_perm6 (k : Nat) (r n : V3 α) : betaN (permV3 (perm6 k) r) (permV3 (perm6 k) n) = betaN r n := by
+  rw [betaN_eq_sqrt_quadForm, betaN_eq_sqrt_quadForm, quadForm_perm6]
+
+/-- swapping (a, b) together with (n_x, n_y) leaves the traced `_beta` unchanged: at the angle φ' whose cosine / sine are
+the sine / cosine of φ (φ' = π/2 − φ) the traced `_n` is the direction with x and y exchanged, and `_beta(b, a, c)` there
+equals `_beta(a, b, c)` at φ -/
+theorem beta_joint_permutation (a b c φ φ' θ : α)
+    (hc : Trans.cos φ' = Trans.sin φ) (hs : Trans.sin φ' = Trans.cos φ) :
+    (nvec_0 φ' θ = nvec_1 φ θ ∧ nvec_1 φ' θ = nvec_0 φ θ ∧ nvec_2 φ' θ = nvec_2 φ θ) ∧
+      beta b a c φ' θ = beta a b c φ θ := by
+  refine ⟨⟨?_, ?_, ?_⟩, ?_⟩
+  · simp only [nvec_0, nvec_1, hc]
+  · simp only [nvec_0, nvec_1, hs]
+  · simp only [nvec_2]
+  · simp only [beta, hc, hs, npow]
+    congr 1
+    ring
+
+/-- the mirrored radicand differs from the coded one by (a² − b²)(sin²φ − cos²φ) sin²θ -/
+theorem betaSqMirrored_sub (a b c sφ cφ sθ cθ : α) :
+    betaSqMirrored a b c sφ cφ sθ cθ - betaSqSC a b c sφ cφ sθ cθ = (a ^ 2 - b ^ 2) * (sφ ^ 2 - cφ ^ 2) * sθ ^ 2 := by
+  simp only [betaSqMirrored, betaSqSC, npow]
+  ring
+
+/-- … so it is NOT Σ (rᵢ nᵢ)² whenever the first two semi-axes differ (a² ≠ b²), off the planes φ = ±45° and off the poles -/
+theorem betaSqMirrored_ne (a b c sφ cφ sθ cθ : α) (hab : a ^ 2 ≠ b ^ 2) (hφ : sφ ^ 2 ≠ cφ ^ 2) (hθ : sθ ≠ 0) :
+    betaSqMirrored a b c sφ cφ sθ cθ ≠ quadForm (vec3 a b c) (nSC sφ cφ sθ cθ) := by
+  rw [← betaSqSC_eq_quadForm]
+  intro h
+  have h0 := betaSqMirrored_sub a b c sφ cφ sθ cθ
+  rw [h, sub_self] at h0
+  have : (a ^ 2 - b ^ 2) * (sφ ^ 2 - cφ ^ 2) * sθ ^ 2 ≠ 0 :=
+    mul_ne_zero (mul_ne_zero (sub_ne_zero.mpr hab) (sub_ne_zero.mpr hφ)) (pow_ne_zero 2 hθ)
+  exact this h0.symm
+
+/-- … and it is invisible when r[0] = r[1] (spheres, needles (1,1,ar), plates (ar,ar,1): every test and example) -/
+theorem betaSqMirrored_eq_of_equal_axes (a c sφ cφ sθ cθ : α) :
+    betaSqMirrored a a c sφ cφ sθ cθ = betaSqSC a a c sφ cφ sθ cθ := by
+  have h := betaSqMirrored_sub a a c sφ cφ sθ cθ
+  rw [sub_self, zero_mul, zero_mul] at h
+  exact sub_eq_zero.mp h
+
+/-- the mirrored radicand is the coded one of the particle with a and b exchanged: the geometry is mirrored x ↔ y -/
+theorem betaSqMirrored_eq_swapped (a b c sφ cφ sθ cθ : α) :
+    betaSqMirrored a b c sφ cφ sθ cθ = betaSqSC b a c sφ cφ sθ cθ := by
+  simp only [betaSqMirrored, betaSqSC, npow]
+  ring
+
+/-- WITNESS (exact rationals, sin φ = sin θ = 3/5, cos φ = cos θ = 4/5, tri-axial particle (1, 2, 3)): the mirrored variant
+gives β² = 4257/625 where Σ (rᵢ nᵢ)² = 4068/625 -/
+theorem beta_mirrored_differs :
+    betaSqMirrored (1 : ℚ) 2 3 (3 / 5) (4 / 5) (3 / 5) (4 / 5) ≠ quadForm (vec3 1 2 3) (nSC (3 / 5) (4 / 5) (3 / 5) (4 / 5)) := by
+  simp [betaSqMirrored, quadForm, vec3, nSC, npow]
+  norm_num
+
+theorem beta_mirrored_witness_values :
+    betaSqMirrored (1 : ℚ) 2 3 (3 / 5) (4 / 5) (3 / 5) (4 / 5) = 4257 / 625 ∧
+      betaSqSC (1 : ℚ) 2 3 (3 / 5) (4 / 5) (3 / 5) (4 / 5) = 4068 / 625 := by
+  constructor <;> · simp [betaSqMirrored, betaSqSC, npow]; norm_num
+
+/-- non-vacuity: the witness values are sines and cosines of angles (s² + c² = 1), the hypotheses of `betaSqMirrored_ne` hold
+there, and the hypotheses of `beta_joint_permutation` are satisfiable -/
+example : ((3 : ℚ) / 5) ^ 2 + (4 / 5) ^ 2 = 1 ∧ ((1 : ℚ)) ^ 2 ≠ 2 ^ 2 ∧ ((3 : ℚ) / 5) ^ 2 ≠ (4 / 5) ^ 2 ∧ ((3 : ℚ) / 5) ≠ 0 := by
+  norm_num
+
+/-! ### the quadrature sum under a relabelling of the axes -/
+
+theorem lsum_perm {l₁ l₂ : List α} (h : l₁.Perm l₂) : lsum l₁ = lsum l₂ := by
+  induction h with
+  | nil => rfl
+  | cons x _ ih => simp only [lsum, ih]
+  | swap x y l => simp only [lsum]; ring
+  | trans _ _ ih1 ih2 => exact ih1.trans ih2
+
+/-- `sphInt` is covariant under a joint relabelling σ of the axes: if the distance function is invariant under the joint
+relabelling (true of `betaN`: `betaN_joint_permutation`; FALSE of a radius function that pairs the semi-axes with other
+axes than the direction function), the kernel is covariant (isotropic stiffness; cubic stiffness along the axes) and the node
+table is mapped to itself, then D'_{ijkl} = D_{σi σj σk σl} — entry by entry the same sum -/
+theorem sphInt_joint_permutation (σ : Fin 3 → Fin 3) (ohm : V3 α → T2 α) (beta : V3 α → V3 α → α)
+    (nodes : List (QNode α)) (dA : α) (r : V3 α)
+    (hβ : ∀ n, beta (permV3 σ r) (permV3 σ n) = beta r n)
+    (hΩ : ∀ n i j, ohm (permV3 σ n) i j = ohm n (σ i) (σ j))
+    (hN : (permNodes σ nodes).Perm nodes) (i j k l : Fin 3) :
+    sphInt ohm beta nodes dA (permV3 σ r) i j k l = sphInt ohm beta nodes dA r (σ i) (σ j) (σ k) (σ l) := by
+  simp only [sphInt]
+  congr 2
+  rw [← lsum_perm (hN.map _)]
+  simp only [permNodes, List.map_map]
+  congr 1
+  apply List.map_congr_left
+  intro q _
+  simp only [Function.comp, hΩ, hβ, permV3]
+
+theorem prod3_perm (σ : Equiv.Perm (Fin 3)) (r : V3 α) : prod3 (permV3 σ r) = prod3 r := by
+  have h : ∀ v : V3 α, prod3 v = ∏ i : Fin 3, v i := fun v => by simp [prod3, Fin.prod_univ_three]
+  rw [h, h]
+  exact Equiv.prod_comp σ r
+
+/-- the same for `Dijkl` with the code's own distance function: relabelled particle ↦ relabelled tensor -/
+theorem Dijkl_joint_permutation (σ : Equiv.Perm (Fin 3)) (ohm : V3 α → T2 α) (nodes : List (QNode α)) (dA : α) (r : V3 α)
+    (hΩ : ∀ n i j, ohm (permV3 σ n) i j = ohm n (σ i) (σ j))
+    (hN : (permNodes σ nodes).Perm nodes) (i j k l : Fin 3) :
+    Dijkl ohm betaN nodes dA (permV3 σ r) i j k l = Dijkl ohm betaN nodes dA r (σ i) (σ j) (σ k) (σ l) := by
+  simp only [Dijkl, prod3_perm]
+  rw [sphInt_joint_permutation σ ohm betaN nodes dA r (fun n => betaN_joint_permutation σ r n) hΩ hN]
+
+/-- non-vacuity of the node-table hypothesis: a two-node table {(1,0,0), (0,1,0)} with equal weights is mapped to itself by x ↔ y -/
+example : (permNodes swap01 [({ n := vec3 1 0 0, w := 1 } : QNode ℚ), { n := vec3 0 1 0, w := 1 }]).Perm
+    [{ n := vec3 1 0 0, w := 1 }, { n := vec3 0 1 0, w := 1 }] := by
+  have e1 : permV3 swap01 (vec3 (1 : ℚ) 0 0) = vec3 0 1 0 := by
+    funext i; fin_cases i <;> simp [permV3, swap01, vec3]
+  have e2 : permV3 swap01 (vec3 (0 : ℚ) 1 0) = vec3 1 0 0 := by
+    funext i; fin_cases i <;> simp [permV3, swap01, vec3]
+  simp only [permNodes, List.map, e1, e2]
+  exact List.Perm.swap _ _ _
+
+/-! ### the hypotheses of `Dijkl_joint_permutation` hold for x ↔ y and a cubic (or isotropic) stiffness along the axes -/
+
+theorem swap01_apply : swap01 0 = 1 ∧ swap01 1 = 0 ∧ swap01 2 = 2 := by decide
+
+/-- the Cramer inverse of a matrix with rows and columns relabelled x ↔ y is the relabelled Cramer inverse -/
+theorem cramer3_swap01 (m : T2 α) (i j : Fin 3) :
+    cramer3 (fun a b => m (swap01 a) (swap01 b)) i j = cramer3 m (swap01 i) (swap01 j) := by
+  obtain ⟨s0, s1, s2⟩ := swap01_apply
+  fin_cases i <;> fin_cases j <;> simp only [cramer3, s0, s1, s2, Fin.zero_eta, Fin.mk_one, Fin.reduceFinMk, Fin.isValue,
+    Fin.val_zero, Fin.val_one, Fin.val_two] <;> congr 1 <;> ring
+
+/-- `invOhm` is covariant under x ↔ y when the stiffness is invariant under it -/
+theorem invOhm_swap01 (c4 : T4 α)
+    (hC : ∀ a b c d, c4 (swap01 a) (swap01 b) (swap01 c) (swap01 d) = c4 a b c d) (n : V3 α) (i j : Fin 3) :
+    invOhm c4 (permV3 swap01 n) i j = invOhm c4 n (swap01 i) (swap01 j) := by
+  obtain ⟨s0, s1, s2⟩ := swap01_apply
+  have h : ∀ k l, c4 i k l j = c4 (swap01 i) (swap01 k) (swap01 l) (swap01 j) := fun k l => (hC i k l j).symm
+  simp only [invOhm, sum3, permV3, h, s0, s1, s2]
+  ring
+
+theorem ohmOf_swap01 (c4 : T4 α)
+    (hC : ∀ a b c d, c4 (swap01 a) (swap01 b) (swap01 c) (swap01 d) = c4 a b c d) (n : V3 α) (i j : Fin 3) :
+    ohmOf c4 (permV3 swap01 n) i j = ohmOf c4 n (swap01 i) (swap01 j) := by
+  have h : invOhm c4 (permV3 swap01 n) = fun a b => invOhm c4 n (swap01 a) (swap01 b) := by
+    funext a b; exact invOhm_swap01 c4 hC n a b
+  simp only [ohmOf, h, cramer3_swap01]
+
+/-- a cubic stiffness along the axes (isotropic: c11 − c12 = 2 c44) is invariant under x ↔ y -/
+theorem cubic_swap01 (c11 c12 c44 : α) (a b c d : Fin 3) :
+    convert2To4 (elasticConstantToC c11 c12 c44) (swap01 a) (swap01 b) (swap01 c) (swap01 d) =
+      convert2To4 (elasticConstantToC c11 c12 c44) a b c d := by
+  obtain ⟨s0, s1, s2⟩ := swap01_apply
+  fin_cases a <;> fin_cases b <;> fin_cases c <;> fin_cases d <;>
+    simp [convert2To4, elasticConstantToC, voigt, s0, s1, s2]
+
+def swapXY : Equiv.Perm (Fin 3) := Equiv.swap 0 1
+
+theorem swapXY_eq : (swapXY : Fin 3 → Fin 3) = swap01 := by
+  funext i; fin_cases i <;> decide
+
+/-- END TO END for x ↔ y: for a cubic or isotropic matrix along the axes and a node table that x ↔ y maps to itself, the
+D tensor of the particle (b, a, c) is the relabelled D tensor of the particle (a, b, c) — with the code's `_beta` = `betaN`;
+a radius function that is not jointly invariant (`betaSqMirrored_ne`) breaks exactly the hypothesis `hβ` of
+`sphInt_joint_permutation` -/
+theorem Dijkl_swap_cubic (c11 c12 c44 : α) (nodes : List (QNode α)) (dA : α) (r : V3 α)
+    (hN : (permNodes swap01 nodes).Perm nodes) (i j k l : Fin 3) :
+    Dijkl (ohmOf (convert2To4 (elasticConstantToC c11 c12 c44))) betaN nodes dA (permV3 swap01 r) i j k l =
+      Dijkl (ohmOf (convert2To4 (elasticConstantToC c11 c12 c44))) betaN nodes dA r (swap01 i) (swap01 j) (swap01 k) (swap01 l) := by
+  have h := Dijkl_joint_permutation swapXY (ohmOf (convert2To4 (elasticConstantToC c11 c12 c44))) nodes dA r
+  rw [swapXY_eq] at h
+  exact h (fun n a b => ohmOf_swap01 _ (cubic_swap01 c11 c12 c44) n a b) hN i j k l
+
+end orientation
+
 /-! ## real numbers: the laws of sqrt used above hold -/
 section real
 open Real
@@ -1246,6 +1485,18 @@ theorem real_bohm_size_scaling (ev : Eval ℝ) (inv4 : T4 ℝ → T4 ℝ) (ohm :
     energyBohm ev inv4 cM cP (Sijmn cM (Dijkl ohm betaN nodes dA (smul3 s r))) eig (volume (smul3 s r)) =
       s ^ 3 * energyBohm ev inv4 cM cP (Sijmn cM (Dijkl ohm betaN nodes dA r)) eig (volume r) :=
   bohm_size_scaling_beta real_sqrt_scale ev inv4 ohm nodes dA s r cM cP eig hs
+
+/-- over ℝ: β² = Σ (rᵢ nᵢ)² for the traced `_beta` and `_n` -/
+theorem real_beta_sq_eq_quadratic_form (a b c φ θ : ℝ) :
+    beta a b c φ θ * beta a b c φ θ = quadForm (vec3 a b c) (vec3 (nvec_0 φ θ) (nvec_1 φ θ) (nvec_2 φ θ)) :=
+  beta_sq_eq_quadratic_form (fun x hx => Real.mul_self_sqrt hx) a b c φ θ
+
+/-- over ℝ: the direction with x and y exchanged is the direction of azimuth π/2 − φ, and `_beta(b, a, c)` there equals
+`_beta(a, b, c)` at φ -/
+theorem real_beta_joint_permutation (a b c φ θ : ℝ) :
+    (nvec_0 (Real.pi / 2 - φ) θ = nvec_1 φ θ ∧ nvec_1 (Real.pi / 2 - φ) θ = nvec_0 φ θ ∧ nvec_2 (Real.pi / 2 - φ) θ = nvec_2 φ θ) ∧
+      beta b a c (Real.pi / 2 - φ) θ = beta a b c φ θ :=
+  beta_joint_permutation a b c φ (Real.pi / 2 - φ) θ (Real.cos_pi_div_two_sub φ) (Real.sin_pi_div_two_sub φ)
 
 end real
 
